@@ -69,7 +69,7 @@ func elemVariants(kind int, doc bool, nTags int) []Elem {
 				for sub := 0; sub < kindSub[kind]; sub++ {
 					for sub2 := 0; sub2 < kindSub2[kind]; sub2++ {
 						out = append(out, Elem{Kind: kind, ID: idTab[idx%len(idTab)], Mask: mask, Vis: vis, Tags: tg,
-							Sub: sub, Sub2: sub2, Salt: idx % 7})
+							Sub: sub, Sub2: sub2, Salt: idx % saltRange})
 						idx++
 					}
 				}
@@ -114,7 +114,105 @@ func elemLists() [][]Elem {
 		{Kind: kNote, ID: 10}, {Kind: kUser, ID: 11, Mask: 1}, {Kind: kChangeset, ID: 12, Tags: 1},
 	})
 	lists = append(lists, []Elem{{Kind: kNode, ID: 1}, {Kind: kNode, ID: 9007199254740993}, {Kind: kNode, ID: -3}})
+	// boundary audit: the same id several times (a history: versions of one element), also under
+	// different kinds, ids not in order
+	lists = append(lists, []Elem{
+		{Kind: kNode, ID: 5, Mask: 1<<2 | 1<<6, Salt: 2}, {Kind: kWay, ID: 5, Sub: 2}, {Kind: kNode, ID: 5, Mask: 1<<2 | 1<<6, Salt: 1, Tags: 1},
+		{Kind: kNode, ID: 5, Mask: 1<<2 | 1<<6, Salt: 1, Tags: 1}, {Kind: kRelation, ID: 5, Sub: 4, Salt: 4}, {Kind: kWay, ID: 5, Sub: 4, Salt: 4},
+		{Kind: kNode, ID: 0}, {Kind: kNode, ID: -1}, {Kind: kWay, ID: 0}, {Kind: kRelation, ID: 0}, {Kind: kChangeset, ID: 0}, {Kind: kNote, ID: 0}, {Kind: kUser, ID: 0},
+	})
 	return lists
+}
+
+// manyElems: more than 128 elements, kinds interleaved, boundary ids (top-edge families only: as a
+// member of elemLists it would be multiplied by the whole doc/top product).
+func manyElems() []Elem {
+	var many []Elem
+	for i := 0; i < 132; i++ {
+		id, step := idTab[i%len(idTab)], int64(i/len(idTab))
+		if id < 0 {
+			step = -step // towards zero, no wrap-around at the ends of int64
+		}
+		many = append(many, Elem{Kind: (i * 5) % nKinds, ID: id - step, Salt: i % saltRange})
+	}
+	return many
+}
+
+// edgeTemplates: the element shapes of the edge families, which exist to carry every value of every
+// table (model.go) to every field: everything present with the classic, the boundary and the large
+// lists; nothing present; every optional field on its own.
+func edgeTemplates(kind int) []Elem {
+	r := rich(kind, 0, 0)
+	edge, large := r, r
+	switch kind {
+	case kWay, kRelation:
+		edge.Sub, large.Sub = 5, 6
+	case kChangeset:
+		edge.Sub = 3
+	case kNote:
+		edge.Sub, edge.Sub2 = 3, 3
+	}
+	if kindHasTags[kind] {
+		edge.Tags, large.Tags = 4, 5
+	}
+	out := []Elem{r}
+	if edge != r {
+		out = append(out, edge)
+	}
+	if kind == kWay || kind == kRelation || kindHasTags[kind] {
+		out = append(out, large)
+	}
+	bare := Elem{Kind: kind}
+	if kind == kWay || kind == kRelation {
+		bare.Sub = 4
+	}
+	out = append(out, bare)
+	for b := uint(0); b < kindBits[kind]; b++ {
+		out = append(out, Elem{Kind: kind, Mask: 1 << b})
+	}
+	return out
+}
+
+// edgeElems: every template under every Salt (so that a present field sees every table value; the
+// id walks through idTab with it), and the first two templates under every id.
+func edgeElems() []Elem {
+	var out []Elem
+	for k := 0; k < nKinds; k++ {
+		ts := edgeTemplates(k)
+		for ti, t := range ts {
+			for salt := 0; salt <= saltRange; salt++ { // saltRange itself: the 6 KB strings
+				if (t.Sub == 6 || t.Tags == 5) && salt%8 != 0 && salt != saltRange {
+					continue // the large lists are about counts, their values come from three Salts
+				}
+				e := t
+				e.Salt = salt
+				e.ID = idTab[(salt+ti)%len(idTab)]
+				out = append(out, e)
+			}
+		}
+		for ti := 0; ti < 2 && ts[ti].Mask != 0; ti++ { // the rich shapes (a kind without a boundary shape has one)
+			for i, id := range idTab {
+				e := ts[ti]
+				e.ID, e.Salt = id, (i*5+3)%saltRange
+				out = append(out, e)
+			}
+		}
+	}
+	return out
+}
+
+// zeroElems: every optional-field subset of every kind for documents that write the absent scalars
+// with their zero value.
+func zeroElems() []Elem {
+	var out []Elem
+	idx := 0
+	for k := 0; k < nKinds; k++ {
+		for mask := uint32(0); mask < 1<<kindBits[k]; mask++ {
+			out = append(out, Elem{Kind: k, ID: idTab[idx%len(idTab)], Mask: mask, Salt: idx % saltRange, Zero: 1, Order: idx % 2 * 3})
+			idx++
+		}
+	}
+	return out
 }
 
 // changeBlock: content of one osmChange block. 1 empty, 2 node+way+relation
@@ -263,7 +361,105 @@ func families(quick bool) []family {
 		}
 	}
 	fams = append(fams, family{"doc/change", len(dc), func(i int) Case { return dc[i] }})
+
+	// ---- boundary audit families ----
+
+	// value/edge, doc/edge: boundary values of every table in every field (see edgeElems).
+	ee := edgeElems()
+	fams = append(fams, family{"value/edge", len(ee), func(i int) Case {
+		return Case{Family: "value/edge", Top: Top{Version: 2, Gen: true}, Elems: []Elem{ee[i]}}
+	}})
+	edgeOrders := []int{0, 1, 3}
+	if !quick {
+		edgeOrders = []int{0, 1, 2, 3, 4, 5, 6, 7}
+	}
+	// every edge element in canonical key order; the small ones (not the 2000-node / 300-member / 6 KB
+	// string shapes, whose documents are 20 to 100 times larger) also in the other key orders and with
+	// the absent scalars written as zero values
+	var de2 []Elem
+	for _, e := range ee {
+		de2 = append(de2, e)
+		if e.Sub == 6 || e.Tags == 5 || e.Salt == saltRange {
+			continue
+		}
+		for _, ord := range edgeOrders {
+			for zero := 0; zero < 2; zero++ {
+				if ord == 0 && zero == 0 {
+					continue
+				}
+				v := e
+				v.Order, v.Zero = ord, zero
+				de2 = append(de2, v)
+			}
+		}
+	}
+	fams = append(fams, family{"doc/edge", len(de2), func(i int) Case {
+		return Case{Family: "doc/edge", Top: plainTop, Elems: []Elem{de2[i]}}
+	}})
+	ze := zeroElems()
+	fams = append(fams, family{"doc/zero", len(ze), func(i int) Case {
+		return Case{Family: "doc/zero", Top: plainTop, Elems: []Elem{ze[i]}}
+	}})
+
+	// value/top-edge: boundary top-level strings and bounds × version strings × string subsets ×
+	// bounds × three element lists (one rich node, the history list, the 132-element list).
+	many := manyElems()
+	edgeLists := [][]Elem{lists[1], lists[9], many}
+	var vte []Case
+	for _, ver := range []int{0, 2, 4, 5} {
+		for alt := 1; alt <= 2; alt++ {
+			for m := 0; m < 16; m++ {
+				for _, b := range bools {
+					for li, l := range edgeLists {
+						if li == 2 && m%5 != 0 {
+							continue // the long list with no, two (twice) and all four strings
+						}
+						vte = append(vte, Case{Family: "value/top-edge", Elems: l,
+							Top: Top{Version: ver, Gen: m&1 != 0, Copy: m&2 != 0, Attr: m&4 != 0, Lic: m&8 != 0, Bounds: b, Alt: alt}})
+					}
+				}
+			}
+		}
+	}
+	fams = append(fams, family{"value/top-edge", len(vte), func(i int) Case { return vte[i] }})
+
+	// doc/top-edge: the version forms and the Alt variants the classic doc/top family does not have
+	// (integer and two-decimal numbers, "" and null for absent keys) × string subsets × bounds ×
+	// unknown keys 0/1 × no elements key / empty / one rich node / (for 4 of the 16 subsets) the long list.
+	var dte []Case
+	for ver := 0; ver <= 6; ver++ {
+		for alt := 0; alt <= 4; alt++ {
+			if ver < 4 && alt == 0 {
+				continue // doc/top
+			}
+			for m := 0; m < 16; m++ {
+				for _, b := range bools {
+					for unk := 0; unk < 2; unk++ {
+						for li, l := range [][]Elem{lists[0], lists[0], lists[1], many} {
+							if li == 3 && (m%5 != 0 || unk != 0) {
+								continue // the long list with no, two (twice) and all four strings
+							}
+							dte = append(dte, Case{Family: "doc/top-edge", Elems: l,
+								Top: Top{Version: ver, Gen: m&1 != 0, Copy: m&2 != 0, Attr: m&4 != 0, Lic: m&8 != 0,
+									Bounds: b, Unknown: unk, ElemPos: (m + li) % 3, WS: unk, NoElems: li == 0, Alt: alt}})
+						}
+					}
+				}
+			}
+		}
+	}
+	fams = append(fams, family{"doc/top-edge", len(dte), func(i int) Case { return dte[i] }})
 	return fams
+}
+
+// smallFamily: the families a one-sided codec configuration (only a marshaler or only an unmarshaler
+// installed) is run on.
+func smallFamily(name string) bool {
+	switch name {
+	case "value/top", "doc/zero":
+		return true
+	}
+	return false
 }
 
 // codecPathsCase: one container with every kind and every helper involved.
